@@ -113,3 +113,36 @@ func WaitOrDeadlock(wg *sync.WaitGroup, first, max time.Duration) (string, strin
 		wait = 500 * time.Millisecond
 	}
 }
+
+// PatientWait waits for done, at most d - where d is counted in forty steps and no single
+// step counts for more than two: a stall of the whole process or a jump of the clock (a
+// virtual machine that is paused and resumed) uses up two steps, not the whole budget, and
+// the goroutines being waited for get the remaining steps to finish. Returns whether done
+// was closed. For verdicts of the kind "has not returned after 60 s although everything it
+// could wait for happened within milliseconds".
+func PatientWait(done <-chan struct{}, d time.Duration) bool {
+	step := d / 40
+	if step <= 0 {
+		step = time.Millisecond
+	}
+	var elapsed time.Duration
+	for elapsed < d {
+		t0 := time.Now()
+		select {
+		case <-done:
+			return true
+		case <-time.After(step):
+		}
+		dt := time.Since(t0)
+		if dt > 2*step {
+			dt = 2 * step
+		}
+		elapsed += dt
+	}
+	select {
+	case <-done:
+		return true
+	default:
+		return false
+	}
+}
